@@ -29,7 +29,9 @@ def mape(y_pred, y_test):
         The MAPE for the given predictions.
 
     """
-    return np.nanmean(100.0 * np.abs(y_test - y_pred.ravel()) / np.abs(y_test).ravel())
+    y_pred = np.asarray(y_pred).ravel()
+    y_test = np.asarray(y_test).ravel()
+    return np.nanmean(100.0 * np.abs(y_pred - y_test) / np.abs(y_test))
 
 
 def bias(y_pred, y_test):
